@@ -52,9 +52,13 @@ InstrSem(f, in, tbls, active, filtered) ==
           ELSE LET up(c) == IF IsNull(c) THEN c ELSE Tbl1(tbls, fn.sym, c) IN
                IF s1.typ = "string"
                THEN SetColumn(f, PlainCol(dst, "string", [r \in 1..f.n |-> up(s1.cells[r])]))
-               ELSE \* enum: the value table is rewritten; collapsing values are not specified
-                    LET cells == [r \in 1..f.n |-> up(s1.cells[r])] IN
-                    Unspec
+               ELSE \* enum: the value table is rewritten entry by entry, the codes stay (ecolumn toUpper);
+                    \* entries may collapse: then the frame is "ambiguous" (AmbFrame) and only
+                    \* operations that go by the strings are specified on it (Judge)
+                    LET cells == [r \in 1..f.n |-> up(s1.cells[r])]
+                        upv == [i \in 1..Len(s1.vals) |-> Tbl1(tbls, fn.sym, MkCell(s1.vals[i]))] IN
+                    IF \E i \in 1..Len(upv) : upv[i] = <<2>> THEN Unspec     \* an entry the harness could not know
+                    ELSE SetColumn(f, MkCol(dst, "enum", cells, [i \in 1..Len(upv) |-> KeyOf(upv[i])], FALSE))
        ELSE ErrFrame
   ELSE IF ~HasCol(f, in.src2) THEN ErrFrame
   ELSE LET s2 == ColOf(f, in.src2) IN
